@@ -34,7 +34,7 @@ def c12(run, tier):
     run.assumptions = GROUND_ASSUME + ["one injected panic per history; the follow-up panic of the property's quantifier is not enumerated",
                                        "crash points are callbacks of WrapDb (every RustIrDatabase / UnificationDatabase method except interner())"]
     big = tier == "thorough"
-    if big: f, byid = fam(run, tier, None, None, (2, 2, 2, True, True), 400)
+    if big: f, byid = fam(run, tier, None, None, (2, 2, 2, True, True), 100)
     else:   f, byid = fam(run, tier, (2, 2, 2, True, True), 24, None)
     recs = gc.model_check(run, f, gc.goals_atoms_and_not, {"MaxOps": 3 if big else 2, "Kinds": ["solve", "panic"], "MaxPanic": 130, "PanicPlans": True,
                                                           "Invariants": ["PanicSafe", "NothingLost", "BoundedWork"]}, "C12", timeout=3000)
